@@ -1,6 +1,7 @@
 import JominiModel.Proofs.BinTapeNested
 import JominiModel.Proofs.BinTapeEq
 import JominiModel.Proofs.BinDeFlat
+import JominiModel.Proofs.BinDeNested
 /-
 End-to-end composition for C04 ∘ C03 at the model level: from the BYTES of a document to the VALUE.
 
@@ -178,5 +179,17 @@ theorem C04_tape_end_to_end_partial (c : Cfg) (vt : Ty) (hvt : LeafTy vt) (d : B
     deTape c (.plain (.map vt)) (toBinDeTape T) = valueOfBin c (.plain (.map vt)) (toBDoc d) := by
   rw [parse_toBinDeTape d hm hw opt T hp]
   exact (flat_map_all c vt hvt (toBDoc d) hfl).1
+
+/-- (C04 ∘ C03, end to end on the tape path, NESTED documents) from the BYTES of any well-formed
+document of the common fragment — nested objects and arrays, rgb, ghosts, empty containers, every
+scalar kind and payload encoding — through the tape parser model (either variant) and the tape
+deserializer model to the VALUE: it is the reference value `valueOfBin` of the document, for every
+resolver, strategy and fitting root request. -/
+theorem C04_tape_end_to_end (c : Cfg) (ty : RootTy) (d : BinTape.Fields)
+    (hm : noMixedF d = true) (hw : d.wfDoc = true) (hfit : fitsRoot c ty (toBDoc d) = true) (opt : Bool)
+    (T : BinTape.Tape) (hp : BinTape.parse opt d.encode = .ok T) :
+    deTape c ty (toBinDeTape T) = valueOfBin c ty (toBDoc d) := by
+  rw [parse_toBinDeTape d hm hw opt T hp]
+  exact C04_eq_spec_tape c ty (toBDoc d) hfit
 
 end Jomini.BinDe
